@@ -315,18 +315,18 @@ func runC02(c *eng.Ctx, thorough bool) {
 	c.Clause("R1", "C02.4")
 	internalReq := `^call:logical\.(RevokeRequest|RenewRequest|RenewAuthRequest|RollbackRequest)$`
 	routeTable := map[string]string{
-		"vault.(*Core).doRouting":                         "the authenticated/login dispatch (C02.1, C02.3)",
-		"vault.(*Core).handleRequest":                     "revocation of an ephemeral lease after inline auth: logical.RevokeRequest",
-		"vault.(*Core).walkKvMountSecrets":                "metrics gauge: constant list operation on kv mounts",
-		"vault.(*Core).wrapInCubbyhole":                   "stores the wrapped response under the new wrapping token: constant cubbyhole/ paths",
-		"vault.(*ExpirationManager).Register":             "rollback of a failed registration: logical.RevokeRequest",
-		"vault.(*ExpirationManager).renewAuthEntry":       "logical.RenewAuthRequest",
-		"vault.(*ExpirationManager).renewEntry":           "logical.RenewRequest",
-		"vault.(*ExpirationManager).revokeEntry":          "logical.RevokeRequest",
-		"vault.(*RollbackManager).attemptRollback":        "logical.RollbackRequest",
-		"vault.(*SystemBackend).handleWrappingLookup":     "constant cubbyhole/wrapinfo read with the validated wrapping token",
-		"vault.(*SystemBackend).handleWrappingRewrap":     "constant cubbyhole/ paths with the validated wrapping token",
-		"vault.(*SystemBackend).responseWrappingUnwrap":   "constant cubbyhole/response read with the validated wrapping token",
+		"vault.(*Core).doRouting":                       "the authenticated/login dispatch (C02.1, C02.3)",
+		"vault.(*Core).handleRequest":                   "revocation of an ephemeral lease after inline auth: logical.RevokeRequest",
+		"vault.(*Core).walkKvMountSecrets":              "metrics gauge: constant list operation on kv mounts",
+		"vault.(*Core).wrapInCubbyhole":                 "stores the wrapped response under the new wrapping token: constant cubbyhole/ paths",
+		"vault.(*ExpirationManager).Register":           "rollback of a failed registration: logical.RevokeRequest",
+		"vault.(*ExpirationManager).renewAuthEntry":     "logical.RenewAuthRequest",
+		"vault.(*ExpirationManager).renewEntry":         "logical.RenewRequest",
+		"vault.(*ExpirationManager).revokeEntry":        "logical.RevokeRequest",
+		"vault.(*RollbackManager).attemptRollback":      "logical.RollbackRequest",
+		"vault.(*SystemBackend).handleWrappingLookup":   "constant cubbyhole/wrapinfo read with the validated wrapping token",
+		"vault.(*SystemBackend).handleWrappingRewrap":   "constant cubbyhole/ paths with the validated wrapping token",
+		"vault.(*SystemBackend).responseWrappingUnwrap": "constant cubbyhole/response read with the validated wrapping token",
 	}
 	if m, miss := c.P.StaticCallee("routing.(*Router).Route"); len(miss) == 0 {
 		sites := c.P.FindCalls(m, func(fn *ssa.Function) bool { return !eng.InPkg(fn, "routing") })
@@ -380,13 +380,13 @@ func runC02(c *eng.Ctx, thorough bool) {
 			return p == eng.Alias["vault"] || p == eng.Alias["http"] || p == eng.Alias["routing"] || p == eng.ModMain+"/internal/command" || p == eng.Alias["server"]
 		})
 		c.CallerTable("logical.Backend.HandleRequest (direct)", sites, map[string]string{
-			"routing.(*Router).routeCommon":                       "the router itself",
-			"vault.(*Core).aliasNameFromLoginRequest":             "constant AliasLookaheadOperation (no backend side effects by contract)",
-			"vault.(*Core).doResolveRoleLocked":                   "constant ResolveRoleOperation",
-			"vault.(*SystemBackend).handleRateLimitQuotasUpdate":  "constant ResolveRoleOperation to validate a role name",
-			"vault.(*SystemBackend).pathInternalOpenAPI":          "constant HelpOperation",
-			"http.handleLogicalRecovery":                          "recovery mode raw backend, behind the recovery token compare",
-			"vault.(*Core).HandleRequest":                         "wrapper", // not an invoke; harmless if absent
+			"routing.(*Router).routeCommon":                      "the router itself",
+			"vault.(*Core).aliasNameFromLoginRequest":            "constant AliasLookaheadOperation (no backend side effects by contract)",
+			"vault.(*Core).doResolveRoleLocked":                  "constant ResolveRoleOperation",
+			"vault.(*SystemBackend).handleRateLimitQuotasUpdate": "constant ResolveRoleOperation to validate a role name",
+			"vault.(*SystemBackend).pathInternalOpenAPI":         "constant HelpOperation",
+			"http.handleLogicalRecovery":                         "recovery mode raw backend, behind the recovery token compare",
+			"vault.(*Core).HandleRequest":                        "wrapper", // not an invoke; harmless if absent
 		}, 5)
 		c.Clause("R12", "C02.4")
 		wantOp := map[string]string{
